@@ -34,6 +34,8 @@ func vAcceptObligations(km *VKeyMaterial, recvRole int, b []byte, valid bool, r 
 		return
 	}
 	vr.Cover("c02.accepted-plain")
+	// handled as an unprotected datagram only if it does not present an Encrypted payload up front
+	vr.Assert("c02.plain-only-when-not-sk", len(r.Payloads) == 0 || r.Payloads[0].Type() != message.TypeSK)
 	d := new(message.IKEMessage)
 	derr := d.Decode(b)
 	vr.Assert("c02.plain-when-not-sk", derr == nil && message.VEqMessage(d, r))
@@ -140,7 +142,8 @@ func HUnprotectArbitrary() {
 // the SK branch implies that the presented datagram carries a valid ICV for that receiver, which under
 // the ideal-MAC reading (no collisions, distinct keys give distinct MACs) never happens for a modified
 // or misdirected message.
-// Params: suite, sender role, mode (0 edit, 1 truncate, 2 extend, 3 reflect, 4 other keys), tier, kinds..., 0.
+// Params: suite, sender role, mode (0 edit, 1 truncate, 2 extend, 3 reflect, 4 other keys, 5 structured
+// extension with adjusted header length), tier, kinds..., 0.
 func HTamperGenuine() {
 	suite, role, mode, tier := vr.Param(0), vr.Param(1), vr.Param(2), vr.Param(3)
 	km := VGenKeyMaterial(suite)
@@ -174,6 +177,14 @@ func HTamperGenuine() {
 		b = append([]byte{}, g[:vr.IntIn(0, len(g)-1)]...)
 	case 2:
 		b = append(append([]byte{}, g...), vr.Bytes(vr.IntOf(1, 4, 16))...)
+	case 5:
+		// structured extension: a well-formed further payload (of the type the SK header announces) is
+		// appended behind the Encrypted payload and the header length field is adjusted
+		body := vr.Bytes(vr.IntOf(0, 1, 5))
+		b = append([]byte{}, g...)
+		b = append(b, 0, vr.U8()&0x7f, byte((4+len(body))>>8), byte(4+len(body)))
+		b = append(b, body...)
+		b[24], b[25], b[26], b[27] = byte(len(b)>>24), byte(len(b)>>16), byte(len(b)>>8), byte(len(b))
 	case 3:
 		b = append([]byte{}, g...)
 		recv = role
@@ -194,6 +205,14 @@ func HTamperGenuine() {
 	// ideal-MAC reading: a modified or misdirected message never carries a valid ICV for this receiver
 	// (collision probability <= 2^-96, treated as never)
 	vr.Assume(!valid)
+	// ... and no collision with the genuine checksum: wherever the code looks for the checksum (e.g. at
+	// the end of the Encrypted payload when further payloads follow), the MAC over a span that differs from
+	// the genuine one is not the genuine checksum
+	icvLen := VIntegOutLen[suite%3]
+	if mode != 3 && mode != 4 && len(b) >= icvLen && !(mode == 0 && editPos >= len(g)-icvLen) {
+		_, kaG := vSenderKeys(km, role)
+		vr.Assume(!vr.EqBytes(g[len(g)-icvLen:], VSpecICV(suite, kaG, b[:len(b)-icvLen])))
+	}
 	vr.GuardCipher("c02.cipher-after-mac", valid)
 	mac0, ciph0 := vr.MacCalls(), vr.CipherCalls()
 	r, err := DecodeDecrypt(b, nil, kR, vRole(recv))
